@@ -256,12 +256,9 @@ def _ghist_report():
 
 
 # --------------------------------------------------------------------------- h_doc class
-_HDOC_CLS = None
-
-
 def _hdoc_target():
-    global _HDOC_CLS
-    if _HDOC_CLS is None:
+    """A freshly decorated h_doc class (its HDocItem objects live only as long as the world)."""
+    if True:
         from ak.color import CHText
         from ak.hdoc import h_doc, BoundMethodNotes
 
@@ -300,8 +297,7 @@ def _hdoc_target():
                     return BoundMethodNotes(False, CHText(_c.warn("n/a")), CHText(_c.warn("! not started !")))
                 return BoundMethodNotes(True, CHText(_c.text("ok")), "")
 
-        _HDOC_CLS = Gadget
-    return _HDOC_CLS
+    return Gadget
 
 
 # --------------------------------------------------------------------------- printable objects
@@ -314,10 +310,14 @@ TABLE_FMT = "id:1-4,name:3-6,status!,status/val:5,status/name:4-20,status/full:1
 SMALL_RECORDS = [(1, "ab", 10), (2, None, 999)]
 SMALL_FMT = "id,name:1-4,status!,status/name:3-6"
 
-OBJECT_KINDS = {"pp": "pp", "tbl": "table", "tbl_s": "table", "rec1": "recfmt", "rec2": "recfmt",
+OBJECT_KINDS = {"pp": "pp", "tbl": "table", "tbl2": "table", "tbl_s": "table", "rec1": "recfmt", "rec2": "recfmt",
                 "recr": "recfmt", "gh": "ghist", "hd": "hdoc"}
-ITERABLE = ("pp", "tbl", "tbl_s", "gh")
+ITERABLE = ("pp", "tbl", "tbl2", "tbl_s", "gh")
 HAS_PALETTE_CLASS = ("pp", "tbl", "tbl_s", "rec1", "gh")
+# format changes applied to the table 'tbl' during a history (limits section only: the columns are kept,
+# i.e. cloned by the implementation); 'tbl2' is PPTable(records, fmt_obj=tbl.fmt), built at its first use
+FMT_OPS = {"*": ";*", "1:1": ";1:1"}
+FMT_STATES = (None, "*", "1:1")
 
 
 def make_enum():
@@ -336,8 +336,7 @@ class Printable:
     def result(self, **kw):
         k = self.kind
         if k == "pp":
-            from ak.ppobj import pp
-            return pp(self.obj, **kw)
+            return self.extra(self.obj, **kw)
         if k in ("table", "ghist"):
             return self.obj.ch_text(**kw)
         if k == "recfmt":
@@ -363,10 +362,15 @@ def build_object(name, shared):
         shared["enum"] = make_enum()
     enum = shared["enum"]
     if name == "pp":
-        return Printable(name, kind, json.loads(json.dumps(PP_DATA)) | {3: [True, None, 2.5]})
+        from ak.ppobj import PrettyPrinter
+        return Printable(name, kind, json.loads(json.dumps(PP_DATA)) | {3: [True, None, 2.5]}, PrettyPrinter())
     if name == "tbl":
         t = PPTable(list(TABLE_RECORDS), fields=["id", "name", "status"], fields_types={"status": enum},
                     fmt=TABLE_FMT, header="Users of the system")
+        return Printable(name, kind, t)
+    if name == "tbl2":
+        src = shared["tbl"]            # the caller supplies the table whose format object is reused
+        t = PPTable(list(TABLE_RECORDS), fmt_obj=src.obj.fmt, header="Users of the system")
         return Printable(name, kind, t)
     if name == "tbl_s":
         t = PPTable(list(SMALL_RECORDS), fields=["id", "name", "status"], fields_types={"status": enum},
@@ -383,9 +387,7 @@ def build_object(name, shared):
                         fields_types={"status": enum})
         return Printable(name, kind, f, (7, "user 07", 4))
     if name == "gh":
-        if "ghist" not in shared:
-            shared["ghist"] = _ghist_report()
-        return Printable(name, kind, shared["ghist"])
+        return Printable(name, kind, _ghist_report())      # report + formatter live as long as the world
     if name == "hd":
         return Printable(name, kind, _hdoc_target()())
     raise ValueError(name)
@@ -420,7 +422,17 @@ def _serve(req):
     assert os.path.realpath(got) == os.path.realpath(repo), (got, repo)
     from ak import color
     name, spec, variant, route = req["obj"], req["spec"], req["variant"], req["route"]
-    p = build_object(name, {})
+    fmt = req.get("fmt")
+    shared = {}
+    if name in ("tbl", "tbl2"):
+        src = build_object("tbl", shared)
+        if fmt is not None:
+            src.obj.fmt = FMT_OPS[fmt]              # format changed, nothing rendered
+        shared["tbl"] = src
+        p = src if name == "tbl" else build_object("tbl2", shared)
+    else:
+        assert fmt is None
+        p = build_object(name, shared)
     kw = {}
     if spec == "nc":
         if p.kind == "hdoc":                      # no no_color argument: a no_color global configuration
@@ -478,25 +490,28 @@ def pristine(requests, repo=None, parallel=16):
 
 
 def reference_requests():
-    """Every (object, configuration, variant, route) the search can ask for.
+    """Every (object, format state, configuration, variant, route) the search can ask for.
 
     std: default palette; pc: alternative palette *class*.  Route 'explicit' passes colors_conf=...,
     route 'global' installs the configuration with set_global_colors_config first (the two must agree).
+    fmt: the last format change applied to table 'tbl' before the rendering (None: as constructed).
     """
     reqs = []
     for name, kind in OBJECT_KINDS.items():
-        reqs.append({"obj": name, "spec": "nc", "variant": "std", "route": "explicit"})
-        for spec in CONF_SPECS:
-            reqs.append({"obj": name, "spec": spec, "variant": "std", "route": "global"})
-            if kind != "hdoc":
-                reqs.append({"obj": name, "spec": spec, "variant": "std", "route": "explicit"})
-                if name in HAS_PALETTE_CLASS:
-                    reqs.append({"obj": name, "spec": spec, "variant": "pc", "route": "explicit"})
+        for fmt in (FMT_STATES if name in ("tbl", "tbl2") else (None,)):
+            reqs.append({"obj": name, "spec": "nc", "variant": "std", "route": "explicit", "fmt": fmt})
+            for spec in CONF_SPECS:
+                if fmt is None:
+                    reqs.append({"obj": name, "spec": spec, "variant": "std", "route": "global", "fmt": fmt})
+                if kind != "hdoc":
+                    reqs.append({"obj": name, "spec": spec, "variant": "std", "route": "explicit", "fmt": fmt})
+                    if name in HAS_PALETTE_CLASS:
+                        reqs.append({"obj": name, "spec": spec, "variant": "pc", "route": "explicit", "fmt": fmt})
     return reqs
 
 
 def req_key(req):
-    return (req["obj"], req["spec"], req["variant"], req["route"])
+    return (req["obj"], req.get("fmt"), req["spec"], req["variant"], req["route"])
 
 
 if __name__ == "__main__":
